@@ -14,6 +14,7 @@ import inspect
 import math
 import operator
 import re
+import signal
 from fractions import Fraction
 
 from hypothesis import strategies as st
@@ -529,6 +530,26 @@ def denote(obj, env):
     return obj
 
 
+class Hang(BaseException):
+    """Evaluation exceeded the CPU budget (passes `except Exception`)."""
+
+
+CPU_LIMIT = 1.0     # seconds of process CPU time; a case needs about 1 ms
+
+
+class cpu_limit:
+    def __enter__(self):
+        def on_alarm(signum, frame):
+            raise Hang()
+        self.old = signal.signal(signal.SIGVTALRM, on_alarm)
+        signal.setitimer(signal.ITIMER_VIRTUAL, CPU_LIMIT)
+
+    def __exit__(self, *exc):
+        signal.setitimer(signal.ITIMER_VIRTUAL, 0)
+        signal.signal(signal.SIGVTALRM, self.old)
+        return False
+
+
 def leaves(e):
     if e['k'] == 'op':
         for a in e['args']:
@@ -547,17 +568,23 @@ def run_lift(case, v):
     row = TABLE.get(root['op'])
     if any(n['op'] not in TABLE for n in nodes(root)):
         raise Reject()      # a replayed case naming an operator not present
+    kinds = [kind_of(a) for a in root['args']]
     if row.random:
         main._m_rgen.seed(case['seed'])
     try:
-        got = denote(build(root, env), env)
+        with cpu_limit():
+            got = denote(build(root, env), env)
     except Raised as r:
         got = Err(type(r.exc).__name__)
+    except Hang:
+        v.fail(f'does_not_terminate:{row.arity}:' + '-'.join(kinds[:2]),
+               f'{render(root)} at x={env.x!r} pmode={env.pmode}: still '
+               f'evaluating after {CPU_LIMIT} s of CPU time')
+        got = None
     if row.random:
         main._m_rgen.seed(case['seed'])
     exp = model(root, env)
-    kinds = [kind_of(a) for a in root['args']]
-    res = M.compare(got, exp)
+    res = M.compare(got, exp) if got is not None or not v.items else None
     if res:
         clause, msg = res
         outer = '-'.join(kinds[:2])
@@ -1121,7 +1148,7 @@ def classify_known(stage, case, viol):
                 'value_mismatch', 'unexpected_exception', 'shape_mismatch',
                 'wrong_exception_class', 'missing_exception',
                 'stream_too_short', 'stream_too_long',
-                'list_length_mismatch'):
+                'list_length_mismatch', 'does_not_terminate'):
             return None
         if row.arity == 'bin' and root['form'] == 'builtin' and \
            len(root['args']) == 2:
